@@ -29,9 +29,14 @@ WHERE = {}
 def strategy(draw, tier="quick"):
     which = draw(st.sampled_from(["bh", "bh", "wn", "ks", "ks-designed"]))
     if which == "ks-designed":
-        return {"which": "ks", "design": draw(structs.designed_pattern())}
+        case = {"which": "ks", "design": draw(structs.designed_pattern())}
+        if draw(st.integers(0, 4)) == 0:
+            case["rename_between"] = [draw(st.integers(0, 200)), draw(st.integers(0, 3))]
+        return case
     p = draw(structs.variant_params(need_h=(which != "ks"), max_res=40))
     case = {"which": which, "p": p}
+    if which == "ks" and draw(st.integers(0, 3)) == 0:
+        case["rename_between"] = [draw(st.integers(0, 200)), draw(st.integers(0, 3))]
     if which in ("bh", "wn"):
         case.update(exclude_water=draw(st.booleans()), sidechain_only=draw(st.integers(0, 3)) == 0,
                     periodic=draw(st.booleans()), cell=draw(st.sampled_from([None, "ortho", "tric"])),
@@ -107,37 +112,57 @@ def run_case(case):
         if case["which"] == "ks":
             t = structs.build(case["p"]) if "p" in case else structs.build_designed(case["design"])
             labels.append("designed" if "design" in case else "seed-variant")
-            ks = md.kabsch_sander(t)
-            bb = oracle_hb.backbone_indices(t.topology)
-            if len(ks) != t.n_frames:
-                return {"viol": [("ks/n_frames", str(len(ks)))], "labels": labels, "nontrivial": False}
             near = False
-            for f in range(t.n_frames):
-                best, amb, undef, skip = oracle_hb.ks_reference(t.xyz[f], bb)
-                M = ks[f].tocoo()
-                if M.shape != (t.n_residues, t.n_residues):
-                    viol.append(("ks/shape", str(M.shape)))
-                    break
-                got = {(int(c), int(r)): float(v) for r, c, v in zip(M.row, M.col, M.data)}   # entry [acceptor row, donor column]
-                exp = {(d, a): e for d, v in best.items() for e, a in v}
-                # a donor with three or more candidates whose 2nd and 3rd energies are within 1e-3: best-two ambiguous
-                for k in sorted(set(got) | set(exp)):
-                    if k in amb or (k[1], k[0]) in amb or k[0] in undef:
+            def ks_check(tag):
+                nonlocal near
+                ks = md.kabsch_sander(t)
+                bb = oracle_hb.backbone_indices(t.topology)
+                if len(ks) != t.n_frames:
+                    viol.append((tag + "ks/n_frames", str(len(ks))))
+                    return
+                for f in range(t.n_frames):
+                    best, amb, undef, skip = oracle_hb.ks_reference(t.xyz[f], bb)
+                    M = ks[f].tocoo()
+                    if M.shape != (t.n_residues, t.n_residues):
+                        viol.append((tag + "ks/shape", str(M.shape)))
+                        break
+                    got = {(int(c), int(r)): float(v) for r, c, v in zip(M.row, M.col, M.data)}   # entry [acceptor row, donor column]
+                    exp = {(d, a): e for d, v in best.items() for e, a in v}
+                    # a donor with three or more candidates whose 2nd and 3rd energies are within 1e-3: best-two ambiguous
+                    for k in sorted(set(got) | set(exp)):
+                        if k in amb or (k[1], k[0]) in amb or k[0] in undef:
+                            near = True
+                            continue
+                        d = k[0]
+                        if (k in got) != (k in exp):
+                            # best-two bookkeeping tie?
+                            viol.append((tag + "ks/bond-set", "frame %d donor residue %d -> acceptor residue %d: %s by mdtraj (E=%s), %s by the documented "
+                                         "formula (E=%s)" % (f, k[0], k[1], "reported" if k in got else "absent", got.get(k), "a bond" if k in exp else "no bond", exp.get(k))))
+                            break
+                        if abs(got[k] - exp[k]) > 2e-3 * max(1.0, abs(exp[k])):
+                            viol.append((tag + "ks/energy", "frame %d pair %s: energy %.5f, formula %.5f" % (f, k, got[k], exp[k])))
+                            break
+                    if viol:
+                        break
+                    if any(abs(e + 0.5) < 0.2 for e in exp.values()):
                         near = True
-                        continue
-                    d = k[0]
-                    if (k in got) != (k in exp):
-                        # best-two bookkeeping tie?
-                        viol.append(("ks/bond-set", "frame %d donor residue %d -> acceptor residue %d: %s by mdtraj (E=%s), %s by the documented "
-                                     "formula (E=%s)" % (f, k[0], k[1], "reported" if k in got else "absent", got.get(k), "a bond" if k in exp else "no bond", exp.get(k))))
-                        break
-                    if abs(got[k] - exp[k]) > 2e-3 * max(1.0, abs(exp[k])):
-                        viol.append(("ks/energy", "frame %d pair %s: energy %.5f, formula %.5f" % (f, k, got[k], exp[k])))
-                        break
-                if viol:
-                    break
-                if any(abs(e + 0.5) < 0.2 for e in exp.values()):
-                    near = True
+            ks_check("")
+            rb = case.get("rename_between")
+            if rb and not viol:
+                # the same Trajectory object asked again after a backbone atom was renamed in place, and after the name was restored
+                bb0 = oracle_hb.backbone_indices(t.topology)
+                complete = [i for i, b in enumerate(bb0) if min(b[:4]) >= 0]
+                if complete:
+                    atom = t.topology.atom(bb0[complete[rb[0] % len(complete)]][rb[1] % 4])
+                    old = atom.name
+                    labels.append("renamed-in-place:" + old)
+                    try:
+                        atom.name = old + "X"
+                        ks_check("after-rename/")
+                    finally:
+                        atom.name = old
+                    if not viol:
+                        ks_check("after-restore/")
             nontrivial = near or "design" in case
             return {"viol": viol, "labels": labels, "nontrivial": bool(nontrivial)}
 
